@@ -80,6 +80,9 @@ def run(ctx):
                 "delay the policy returned for the failure it follows and (ii) the delay the strategy documents for that retry "
                 "(strategy at index k-1), vs Model/RetryChain.v exactly; distinct key = (shape, executions, outcome, policy)")
     ctx.prove()
+    # the run loop's timer heap (several retries pending with different delays, a long delay scheduled before a short one)
+    from suites import timerheap as TH
+    TH.run_suite(ctx, ctx.n(400, 8000), "C06", "C06_run_loop_no_wakeup_fires_early / C06_run_loop_wait_step_fires_exactly_what_is_due")
     exprs, bad, fails, shapes, multi = run_chain(ctx, chain_monitor)
     known = [f for f in fails if f["why"].startswith(K_SHIFT)]
     other = [f for f in fails if not f["why"].startswith(K_SHIFT)]
